@@ -642,6 +642,21 @@ def run(ctx):
     cases = []
     for s in fixed_cases():
         cases.append(Case(s).run(KDQTreePartitioner))
+    # one history with very long samples: fills of 70 000 and 140 000 rows (accumulating and overwriting an id that already
+    # has counts) against a small tree — leaf counts must add up to the points filled however the rows are processed internally
+    hrng = np.random.default_rng([ctx.seed, 808])
+    hm = 2
+    hdata = np.round(hrng.normal(size=(60, hm)) * 8) / 8
+    hspec = {"id": 800000, "count_ubound": 8, "cplb": 2e-10, "m": hm, "kind": "huge-fills", "n": 60, "int_dtype": False,
+             "data": [float(x) for x in hdata.reshape(-1)]}
+    big1 = np.round(hrng.normal(size=(70000, hm)) * 8) / 8
+    big2 = np.sort(np.round(hrng.normal(0.5, 1, size=(140000, hm)) * 8) / 8, axis=0)
+    hspec["ops"] = [("build",), ("fill", "a", False, [float(x) for x in hdata.reshape(-1)]),
+                    ("fill", "a", True, [float(x) for x in big1.reshape(-1)]),
+                    ("fill", "a", False, [float(x) for x in big2.reshape(-1)]),
+                    ("fill", "b", True, [float(x) for x in big2.reshape(-1)])]
+    cases.append(Case(hspec).run(KDQTreePartitioner))
+    ctx.count("huge-fill-histories")
     for i in range(ncases):
         crng = np.random.default_rng([ctx.seed, i])
         spec = gen_case(crng, i, big=not ctx.quick)
